@@ -1,0 +1,21 @@
+// SPDX-License-Identifier: Apache 2.0
+
+//go:build verif
+
+package cbor
+
+import "reflect"
+
+// VerifFieldOrder exposes, for the external verification harness, the order in
+// which the codec encodes the fields of a struct type: for every array slot
+// the field index path, whether the field is omittable and its flatN value
+// (0 when not flattened). Compiled only with -tags verif.
+func VerifFieldOrder(t reflect.Type) (indices [][]int, omittable []bool, flat []int) {
+	indices, isOmittable := fieldOrder(t.NumField(), t.Field)
+	for _, idx := range indices {
+		omittable = append(omittable, isOmittable(idx))
+		n, _ := flatN(t.FieldByIndex(idx))
+		flat = append(flat, n)
+	}
+	return indices, omittable, flat
+}
